@@ -97,7 +97,8 @@ func TestC14(t *testing.T) {
 		wg.Wait()
 		for _, p := range problems {
 			if p != "" {
-				t.Fatalf("C14 %s binary=%v %d connections x %d steps (GOMAXPROCS %d): %s", cfg, binary, conns, steps, procs, p)
+				hp := rec.History("TestC14", map[string]interface{}{"config": cfg.String(), "binary": binary, "connections": conns, "problem": p})
+				t.Fatalf("C14 %s binary=%v %d connections x %d steps (GOMAXPROCS %d): %s (saved: %s)", cfg, binary, conns, steps, procs, p, hp)
 			}
 		}
 		nt := overlapped > 0 && failedCond > 0
